@@ -114,7 +114,7 @@ func init() {
 		Name: "random-deeper",
 		N:    qt(40000, 12000000),
 		Run: func(c *mon.Ctx, i int) {
-			prof := []gen.Profile{gen.PObjects, gen.PNulls.With(func(p *gen.Profile) { p.PArr = 0.25 }), gen.PDeep.With(func(p *gen.Profile) { p.PArr = 0.2 }), gen.PHostile.With(func(p *gen.Profile) { p.PArr = 0.2 })}[i%4]
+			prof := []gen.Profile{gen.PObjects, gen.PNulls.With(func(p *gen.Profile) { p.PArr = 0.25 }), gen.PDeep.With(func(p *gen.Profile) { p.PArr = 0.2 }), gen.PHostile.With(func(p *gen.Profile) { p.PArr = 0.2 }), gen.PSyntaxy.With(func(p *gen.Profile) { p.PArr = 0.25 })}[i%5]
 			t := gen.Doc(c.R, prof)
 			var patch any
 			if c.R.Chance(0.2) {
